@@ -397,13 +397,21 @@ pub fn gen_case(rng: &mut Rng) -> (StackD, CellD) {
     if px == 1 { px = 240; }
     if py == 1 { py = 240; }
     if rng.chance(1, 25) { px /= 2; } // sometimes not a multiple: an error is expected
+    // layers COARSER than the primitive pitch: the primitive pitch is a half / third of the common period,
+    // and the outline is (mostly) a whole number of common periods again — an instance edge then falls
+    // inside a layer period instead of on its boundary
+    let (mut kx, mut ky) = (1i64, 1i64);
+    if rng.chance(1, 3) { let k = 2 + rng.below(2) as i64; if px % k == 0 && px / k >= 60 { px /= k; kx = k; } }
+    if rng.chance(1, 3) { let k = 2 + rng.below(2) as i64; if py % k == 0 && py / k >= 60 { py /= k; ky = k; } }
     if rng.chance(1, 6) { metals[0].shared = true; }
     let mut vias: Vec<ViaD> = vec![];
     if rng.chance(1, 5) { vias.push(ViaD { bot: None, sx: 10, sy: 10 }); }
     for i in 0..nm.saturating_sub(1) { if !rng.chance(1, 12) { vias.push(ViaD { bot: Some(i), sx: 2 * rng.range(4, 20), sy: 2 * rng.range(4, 20) }); } }
     let stack = StackD { px, py, metals, vias };
     let cm = 1 + rng.below(nm as u64) as usize;
-    let (ox, oy) = (1 + rng.below(3) as i64, 1 + rng.below(3) as i64);
+    let (mut ox, mut oy) = (1 + rng.below(3) as i64, 1 + rng.below(3) as i64);
+    if kx > 1 && !rng.chance(1, 8) { ox = kx * (1 + rng.below(2) as i64); }
+    if ky > 1 && !rng.chance(1, 8) { oy = ky * (1 + rng.below(2) as i64); }
     let mut insts = vec![];
     for _ in 0..rng.below(3) {
         let (w, h) = (1 + rng.below(2) as i64, 1 + rng.below(2) as i64);
